@@ -54,8 +54,11 @@ def run(ctx):
     items = []
     for n, e in enumerate(exported):
         items.append(dict(id="m%d" % n, tree=e["tree"], mouts=[o["text"] for o in e["outs"]]))
+    from props import scale
+    for s in scale.items(ctx, quick, max_nest=130):       # scaled programmatic trees (no model text)
+        items.append(dict(id=s["id"], tree=s["want"], mouts=[]))
     ctx.cov["model_failures"] = len(mf)
-    ctx.cov["samples"] = [dict(tree=items[k]["tree"], model_compact=bytes(items[k]["mouts"][0]).decode()) for k in (5, len(items) // 2, len(items) - 1)]
+    ctx.cov["samples"] = [dict(tree=items[k]["tree"], model_compact=bytes(items[k]["mouts"][0]).decode()) for k in (5, 900, 4000)]
     fails = validate(ctx, items)
     ctx.cov["distinct_nontrivial"] = len(items)
     ctx.cov["failing_inputs"] = len(fails)
